@@ -224,6 +224,17 @@ def generate(rng, tier):
     for f in [65, 67, 195, 1, 131]:
         Hs(["pi.r:00:32.4294967295.51.4294967295", "sh.%d.0.76a9.5" % f, "sg.%d.0.76a9.6" % f, "ai.r:00:32.0..0", "ii.1.l:7:32.4294967295..4294967294",
             "sh.%d.0.76a9.5" % f, "sh.%d.1.76a9.5" % f, "sh.%d.2.76a9.5" % f, "ai.r:00:32.4294967295..0", "sh.65.0.76a9.5", "sh.%d.6.76a9.5" % f], t33)
+    # replacement inputs DERIVED from the object's own input (get_input -> one setter -> set_input / add_input / insert_input): the new
+    # input differs from the old one in exactly one field and carries whatever hidden state the old one had; warm and cold
+    mods = [("vo", "7"), ("vo", "4294967295"), ("sq", "16909060"), ("sq", "0"), ("id", "l:555:32"), ("us", "51ab"), ("sa", "4242"), ("lk", "76a9")]
+    for f in [65, 66, 67, 1]:
+        sh = "sh.%d.1.76a9.1000" % f
+        for (fld, val) in mods:
+            for dst in ["s", "a", "i1", "i0"]:
+                if tier == "quick" and dst == "i0" and f != 65:
+                    continue
+                Hs([sh, "sh.65.1.76a9.1", "mi.1.%s.%s.%s" % (fld, val, dst), sh, "sh.65.1.76a9.1", "sh.65.0.76a9.1"], t33)
+            Hs(["mi.1.%s.%s.s" % (fld, val), sh, "sh.65.1.76a9.1", "mi.1.%s.%s.s" % (fld, val), "mi.0.%s.%s.a" % (fld, val), sh, "sh.65.3.76a9.1"], t33)
     # other starting shapes for the short histories
     for (nin, nout) in [(1, 1), (3, 1), (1, 3)]:
         t = G.mk_tx(rng, nin, nout).hex()
